@@ -149,7 +149,20 @@ def make_case(rng):
         feats.add("text.rel-loc" + (":edge-abs" if ":" in rel and not rel.endswith("%") else ":edge-pct" if ":" in rel else ""))
     elif shape in ("text", "point"):
         box = Box(x, y, x, y)
-        attrs += [("xy", "%s %s" % (fmt(x), fmt(y)))]
+        sp = rng.random()
+        if sp < 0.5:
+            attrs += [("xy", "%s %s" % (fmt(x), fmt(y)))]
+        elif sp < 0.7:
+            attrs += [("x", fmt(x)), ("y", fmt(y))]
+            feats.add("anchor.x-y")
+        else:
+            # one or both coordinates computed by an expression over literals (exact: multiples of 1/4)
+            def ex(v):
+                a = F(rng.randint(-20, 20), 4)
+                return rng.choice(["{{%s + %s}}", "{{ %s+%s }}"]) % (fmt(a), fmt(v - a)) if v - a >= 0 else "{{%s - %s}}" % (fmt(a), fmt(a - v))
+            which = rng.choice(["x", "y", "xy"])
+            attrs += [("x", ex(x) if "x" in which else fmt(x)), ("y", ex(y) if "y" in which else fmt(y))]
+            feats.add("anchor.x-y-expression")
     elif shape == "polygon":
         attrs += [("points", "%s,%s %s,%s %s,%s" % (fmt(x), fmt(y), fmt(x + w), fmt(y), fmt(x), fmt(y + h)))]
     loc = None
